@@ -2,12 +2,12 @@ import QuiverModel.Core.Prelude
 import QuiverModel.Core.Repl.Basic
 /-
 qm_c11 — driver for M-Repl. Values are opaque tokens (atoms). Requests:
-  (reset <nil-token>)                                           → state
+  (reset <nil-token> <nil-type-token>)                                          → state
   (line parse-error) | (line compile-error)                     → state
   (line no-code (x i)…)                                         → state
-  (line ran (bindings (x i)…) (appended tok…) (result tok))     → state, after checking the line assumptions
+  (line ran (bindings (x i)…) (appended tok…) (result tok tytok)) → state, after checking the line assumptions
   (lookup x)                                                    → val <tok> | unbound
-answer `state`:  b=x:i,y:j l=tok,tok,… arg=tok viol=<none|…>
+answer `state`:  b=x:i,y:j l=tok,tok,… arg=tok ty=tytok viol=<none|…>
 `viol` lists violated assumptions of `C11.runLine_preserves_aligned` about the submitted line:
   old:<x>:<observed>:<predicted>   a binding below the compacted length whose index is not the one `compact` predicts
   range:<x>:<i>                    a binding index beyond compacted + appended locals
@@ -23,7 +23,7 @@ def renderState (s : Session String) (viol : List String) : String :=
   let b := ",".intercalate (s.bindings.map (fun p => s!"{p.1}:{p.2}"))
   let l := ",".intercalate s.locals
   let v := if viol.isEmpty then "none" else ";".intercalate viol
-  s!"b={b} l={l} arg={nextArgument s} viol={v}"
+  s!"b={b} l={l} arg={nextArgument s} ty={s.lastResultTy} viol={v}"
 
 def parseBinding : Sx → Option (String × Nat)
   | .list [.atom x, i] => i.asNat.map (fun i => (x, i))
@@ -52,8 +52,8 @@ def lineViolations (c : Session String) (eff : LineEffect String) : List String 
 
 def c11Step (st : C11State) (req : List Sx) : C11State × String :=
   match req with
-  | [.list [.atom "reset", .atom nil]] =>
-    let s : Session String := { bindings := [], locals := [], lastResult := nil }
+  | [.list [.atom "reset", .atom nil, .atom ty]] =>
+    let s : Session String := { bindings := [], locals := [], lastResult := nil, lastResultTy := ty }
     ({ s := s, nil := nil }, renderState s [])
   | [.list [.atom "line", .atom "parse-error"]] =>
     let s := runLine st.nil st.s .parseError
@@ -68,10 +68,10 @@ def c11Step (st : C11State) (req : List Sx) : C11State × String :=
       ({ st with s := s }, renderState s [])
     | none => (st, "bad-request")
   | [.list [.atom "line", .atom "ran", .list (.atom "bindings" :: bs), .list (.atom "appended" :: app),
-            .list [.atom "result", .atom r]]] =>
+            .list [.atom "result", .atom r, .atom ty]]] =>
     match parseBindings bs, atoms app with
     | some b, some app =>
-      let eff : LineEffect String := { bindings := b, appended := app, result := r }
+      let eff : LineEffect String := { bindings := b, appended := app, result := r, resultTy := ty }
       let viol := lineViolations (compact st.s) eff
       let s := runLine st.nil st.s (.ran eff)
       ({ st with s := s }, renderState s viol)
